@@ -2,4 +2,5 @@ import KcpVerif.Generated
 import KcpVerif.Model.Ring
 import KcpVerif.Props.C20
 import KcpVerif.Model.Sched
+import KcpVerif.Lemmas.Sched
 import KcpVerif.Props.C17
